@@ -1,0 +1,102 @@
+//go:build verif
+
+// Contracts for the govc verifier (/verif). Comment-only; compiled only with -tags verif.
+// wfPathPattern / wfQueryPattern / patternOK are defined in /verif/specs/pattern.ghost.
+
+package pattern
+
+// ---- PathComponentPagePattern ----
+
+//@ func (*PathComponentPagePattern).String()
+//@   requires pp != nil
+
+//@ func (*PathComponentPagePattern).PageNumber()
+//@   requires pp != nil
+
+//@ func (*PathComponentPagePattern).IsValidFor(docURL)
+//@   requires wfPathPattern(pp) && docURL != nil
+
+//@ func (*PathComponentPagePattern).IsPagingURL(url)
+//@   requires wfPathPattern(pp)
+
+//@ func (*PathComponentPagePattern).getLongestCommonPrefixLength(str1, str2)
+//@   ensures 0 <= result && result <= len(str1) && result <= len(str2)
+//@   loop 0 invariant 0 <= i && i <= limit && limit <= len(str1) && limit <= len(str2)
+//@   loop 0 decreases limit - i
+
+//@ func (*PathComponentPagePattern).getLongestCommonSuffixLength(str1, str2, startIndex)
+//@   requires startIndex >= -1
+//@   ensures 0 <= result
+//@   loop 0 invariant i <= len(str1) - 1 && j <= len(str2) - 1 && commonSuffixLen >= 0
+//@   loop 0 decreases i + 1
+
+//@ func (*PathComponentPagePattern).hasSamePathComponentsAs(parsedURL)
+//@   requires wfPathPattern(pp) && parsedURL != nil
+//@   loop 0 invariant 0 <= i && 0 <= j && pp != nil
+//@   loop 0 decreases len(patternComponents) - j
+
+//@ func (*PathComponentPagePattern).isCalendarPage()
+//@   requires wfPathPattern(pp)
+
+//@ func (*PathComponentPagePattern).isPagingUrlForStartOfPathComponent(url)
+//@   requires wfPathPattern(pp)
+
+//@ func (*PathComponentPagePattern).isPagingUrlForNotStartOfPathComponent(url)
+//@   requires wfPathPattern(pp)
+//@   loop 0 invariant pp.placeholderSegmentStart <= firstDiffPos && (firstDiffPos <= maxPos || firstDiffPos == pp.placeholderSegmentStart)
+//@   loop 0 invariant wfPathPattern(pp) && maxPos <= pp.placeholderStart && maxPos <= suffixStart
+//@   loop 0 decreases maxPos - firstDiffPos
+
+//@ func IsLastNumericPathComponentBad(urlPath, digitStart, digitEnd)
+//@   requires 0 <= digitStart && digitStart <= len(urlPath) && 0 <= digitEnd && digitEnd <= len(urlPath)
+
+//@ func NewPathComponentPagePattern(url, digitStart, digitEnd)
+//@   requires url != nil && 0 <= digitStart && digitStart <= digitEnd && digitEnd <= len(url.Path)
+//@   ensures (result1 == nil) == (result0 != nil)
+//@   ensures implies(result1 == nil, result0.url != nil && fresh(result0) && fresh(result0.url))
+//@   ensures implies(result1 == nil, wfPathIdx(result0))
+//@   ensures implies(result1 == nil, wfPathAffix(result0))
+//@   ensures implies(result1 == nil, wfPathParam(result0))
+//@   ensures implies(result1 == nil, wfPathOrigin(result0))
+//@   loop 0 invariant paramIndex == -1 && clonedURL != nil
+
+//@ func PathComponentPagePatternsFromURL(url)
+//@   requires url != nil
+//@   ensures forall(k, 0 <= k && k < len(result), patternOK(result[k]))
+//@   ensures freshslice(result)
+//@   ensures forall(k, 0 <= k && k < len(result), typeis(result[k], *PathComponentPagePattern) && fresh(as(result[k], *PathComponentPagePattern)) && fresh(as(result[k], *PathComponentPagePattern).url))
+//@   loop 0 invariant url != nil && freshslice(patterns) && forall(k, 0 <= k && k < len(patterns), patternOK(patterns[k]))
+//@   loop 0 invariant forall(k, 0 <= k && k < len(patterns), typeis(patterns[k], *PathComponentPagePattern) && fresh(as(patterns[k], *PathComponentPagePattern)) && fresh(as(patterns[k], *PathComponentPagePattern).url))
+
+// ---- QueryParamPagePattern ----
+
+//@ func (*QueryParamPagePattern).String()
+//@   requires pp != nil
+
+//@ func (*QueryParamPagePattern).PageNumber()
+//@   requires pp != nil
+
+//@ func (*QueryParamPagePattern).IsValidFor(docURL)
+//@   requires wfQueryPattern(pp) && docURL != nil
+
+//@ func (*QueryParamPagePattern).IsPagingURL(url)
+//@   requires wfQueryPattern(pp)
+
+//@ func NewQueryParamPagePattern(url, queryName, queryValue)
+//@   requires url != nil
+//@   ensures (result1 == nil) == (result0 != nil)
+//@   ensures implies(result1 == nil, wfQueryPattern(result0) && fresh(result0) && fresh(result0.url))
+
+//@ func QueryParamPagePatternsFromURL(url)
+//@   requires url != nil
+//@   ensures forall(k, 0 <= k && k < len(result), patternOK(result[k]))
+//@   ensures freshslice(result)
+//@   ensures forall(k, 0 <= k && k < len(result), typeis(result[k], *QueryParamPagePattern) && fresh(as(result[k], *QueryParamPagePattern)) && fresh(as(result[k], *QueryParamPagePattern).url))
+//@   loop 0 invariant url != nil && freshslice(patterns) && forall(k, 0 <= k && k < len(patterns), patternOK(patterns[k]))
+//@   loop 0 invariant forall(k, 0 <= k && k < len(patterns), typeis(patterns[k], *QueryParamPagePattern) && fresh(as(patterns[k], *QueryParamPagePattern)) && fresh(as(patterns[k], *QueryParamPagePattern).url))
+//@   loop 1 invariant url != nil && freshslice(patterns) && forall(k, 0 <= k && k < len(patterns), patternOK(patterns[k]))
+//@   loop 1 invariant forall(k, 0 <= k && k < len(patterns), typeis(patterns[k], *QueryParamPagePattern) && fresh(as(patterns[k], *QueryParamPagePattern)) && fresh(as(patterns[k], *QueryParamPagePattern).url))
+
+//@ func replaceUrlQueryValue(url, queryName, queryValue)
+//@   requires url != nil
+//@   ensures result != nil
